@@ -9,7 +9,7 @@ under the id `b`; when the client later creates its first broker client (id 0) t
 the model does not.  A broker-agnostic request that starts then is ordered by the model with both brokers
 unconnected (shuffle order kept), and the monitor sees "an unconnected broker tried before a connected one".
 The harness never produces such an event (it reports `connected()` of broker clients it has seen created); the
-statement needs the hypothesis `connKnown` below.
+statement needs the hypothesis `connKnown` (AfkakProps/Open/C07.lean).
 -/
 namespace Afkak.ClientNet
 open Afkak.ClientCache
@@ -27,13 +27,6 @@ def evs : List (Env × Ev) :=
    ({ shuffles := [[0, 1]] }, .load 2 []),
    ({}, .fire 1 (.err (.brokerError 7)))]
 end MonWitness
-
-/-- every `connected()` report of the run is about a broker client that exists when it is made (what the harness
-    does: it polls the broker clients the real client has created) -/
-def connKnown (cfg : Cfg) : St → List (Env × Ev) → Bool
-  | _, [] => true
-  | st, (env, e) :: rest =>
-    (match e with | .conn b _ => decide (b < st.bcs.length) | _ => true) && connKnown cfg (step cfg st env e).1 rest
 
 def TItem.isBadOp' : TItem → Bool
   | .ob (.badOp _) => true
